@@ -495,18 +495,28 @@ def case_to_dict(case):
     def jspec(spec):
         return {k: jq(v) for k, v in spec.items()} if isinstance(spec, dict) else jq(spec)
     sp = case["space"]
+    omit = case.get("omit_units", ())       # levels whose "units" key is left out (documented default: "inherit")
+
+    def with_units(d, level, k):
+        if level not in omit:
+            d["units"] = uq.sysdict(D.USYS[k])
+        return d
+    if sp["type"] == "grid":
+        space = {"type": "grid", "w": sp["w"], "h": sp["h"], "d": sp["d"], "cell_env": list(sp["env"]), "cell_volume": jq(sp["vol"])}
+    else:
+        space = {"type": "graph", "edges": [],
+                 "nodes": [with_units({"volume": jq(nd["vol"]), "environment": nd["env"]}, "nodes", nd["us"]) for nd in sp["nodes"]]}
     return {"units": uq.sysdict(D.USYS[case["sys_us"]]),
-            "network": {"units": uq.sysdict(D.USYS[case["net_us"]]), "environments": list(case["envs"]), "reactions": [],
-                        "species": [{"label": s["label"], "density": jspec(s["density"]), "chstt": mk_flag(s["chstt"]),
-                                     "units": uq.sysdict(D.USYS[s["us"]])} for s in case["species"]]},
-            "space": {"type": "grid", "w": sp["w"], "h": sp["h"], "d": sp["d"], "cell_env": list(sp["env"]),
-                      "cell_volume": jq(sp["vol"]), "units": uq.sysdict(D.USYS[case["space_us"]])}}
+            "network": with_units({"environments": list(case["envs"]), "reactions": [],
+                                   "species": [with_units({"label": s["label"], "density": jspec(s["density"]), "chstt": mk_flag(s["chstt"])},
+                                                          "species", s["us"]) for s in case["species"]]}, "network", case["net_us"]),
+            "space": with_units(space, "space", case["space_us"])}
 
 
 def _case_dict(case, out, stats):
     """The same defaults when the system is built from its documented dictionary without "state"/"chemostats"."""
     system = rdsystem_from_dict(case_to_dict(case))
-    check_defaults(case, system, out, stats, site="from_dict")
+    check_defaults(case, system, out, stats, site="from_dict" + (":inherited-units-" + "+".join(case["omit_units"]) if case.get("omit_units") else ""))
     getter_pass(case, system.network, system, out, stats, forms="all", tag="from_dict")
 
 
@@ -1242,7 +1252,80 @@ def _case_spaceedit(case, out, stats):
     out.extend(mine)
 
 
-_SUBS = {"prestate": _case_prestate, "spaceedit": _case_spaceedit, "edit": _case_edit, "magnitude": _case_magnitude, "carrier": _case_carrier, "history": _case_history, "dict": _case_dict, "default": _case_default, "access": _case_access, "ops": _case_ops, "regen": _case_regen,
+# ---- two systems: a write to one system's entry is a write to exactly that entry -------------------------
+
+TWO_ROUTES = ["ctor:state", "attr:state", "ctor:chemostats", "attr:chemostats", "ctor:both", "copy", "copy-of-copy", "same-network",
+              "deepcopy-net-same-space"]
+
+
+def _case_two(case, out, stats):
+    """System B is derived from system A through the library's own API (A.state / A.chemostats handed to B's
+    constructor or attributes, A.copy(), a second system on the same network). set_state / set_chemostat of
+    EVERY entry of the writer must change exactly that entry of the writer - and no entry of the other system:
+    its raw arrays and what its getters return stay what they were."""
+    base = hist_base(case["start"])
+    net, space, a = build(base)
+    us = mk_us(base["sys_us"])
+    route = case["route"]
+    if route == "ctor:state":
+        b = RDSystem(net, space, state=a.state, units_system=us)
+    elif route == "attr:state":
+        b = RDSystem(net, space, units_system=us)
+        b.state = a.state
+    elif route == "ctor:chemostats":
+        b = RDSystem(net, space, chemostats=a.chemostats, units_system=us)
+    elif route == "attr:chemostats":
+        b = RDSystem(net, space, units_system=us)
+        b.chemostats = a.chemostats
+    elif route == "ctor:both":
+        b = RDSystem(net, space, state=a.state, chemostats=a.chemostats, units_system=us)
+    elif route == "copy":
+        b = a.copy()
+    elif route == "copy-of-copy":
+        b = a.copy().copy()
+    elif route == "same-network":
+        b = RDSystem(net, space, units_system=us)
+    else:
+        b = RDSystem(net.copy(), space, units_system=us)
+    writer, other = (b, a) if case["writer"] == "derived" else (a, b)
+    wnet = writer.network
+    nsp, nc = len(base["species"]), D.ncells(base)
+    n = nsp * nc
+    snap = _snapshot(other)
+    scale = si.si_scale(D.USYS[base["sys_us"]], (0, 0, 1))
+    reported = set()
+    for idx in range(n):
+        s, c = divmod(idx, nc)
+        sfn, sfv = species_forms(wnet, s)[idx % 3]
+        cfs = cell_forms(base, c)
+        cfn, cfv = cfs[idx % len(cfs)]
+        w0 = _snapshot(writer)
+        v = 9001 + idx
+        writer.set_state(sfv, cfv, v)
+        writer.set_chemostat(sfv, cfv, 1 - w0[1][idx])
+        stats["set_calls"] = stats.get("set_calls", 0) + 2
+        w1 = _snapshot(writer)
+        okw = (rel_err(w1[0][idx], F(v) * scale) <= TOL and w1[1][idx] == 1 - w0[1][idx]
+               and all(w1[0][j] == w0[0][j] and w1[1][j] == w0[1][j] for j in range(n) if j != idx))
+        if not okw and "w" not in reported:
+            reported.add("w")
+            out.append(("C13:two-systems:%s:%s-writes:own-entry" % (route, case["writer"]),
+                        "set_state / set_chemostat of entry %d of the writer did not change exactly that entry" % idx))
+        now = _snapshot(other)
+        for what, k in (("state", 0), ("chemostats", 1)):
+            if now[k] != snap[k] and what not in reported:
+                reported.add(what)
+                j = [i for i in range(n) if now[k][i] != snap[k][i]]
+                g = other.get_state(s, c) if what == "state" else other.get_chemostat(s, c)
+                out.append(("C13:two-systems:%s:%s-writes:other-system-%s-changed" % (route, case["writer"], what),
+                            "B derived from A by %s; %s(species %d by %s, cell %d by %s) on the %s system changed entries %r of the "
+                            "OTHER system's %s (its get now returns %s)"
+                            % (route, "set_state" if what == "state" else "set_chemostat", s, sfn, c, cfn, case["writer"], j, what, g)))
+    # the system that was never written to still holds the defaults (A was generated, B was given A's defaults)
+    check_defaults(base, other, out, stats, site="two-systems:%s:%s-writes:untouched-system" % (route, case["writer"]))
+
+
+_SUBS = {"two": _case_two, "prestate": _case_prestate, "spaceedit": _case_spaceedit, "edit": _case_edit, "magnitude": _case_magnitude, "carrier": _case_carrier, "history": _case_history, "dict": _case_dict, "default": _case_default, "access": _case_access, "ops": _case_ops, "regen": _case_regen,
          "override": _case_override}
 
 
@@ -1700,14 +1783,49 @@ def sp_dict(tier):
                 for ni in range(len(nets)):
                     seeds.append((roles4, form, shi, ni))
 
+    # graph spaces with explicit units, and "units" left out (inherited) at the space+nodes level / at every level
+    gshapes = [("grid", (2, 1, 2), [0, 1, 1, 0]), ("grid", (1, 3, 1), [1, 0, 1]), ("graph", 3, [1, 0, 1]), ("graph", 2, [0, 1])]
+    for omit in ((), ("space", "nodes"), ("network", "species", "space", "nodes"), ("nodes",), ("species",)):
+        for sys_us in range(3):
+            for other in range(3):
+                for form in ("bare", "str", "mixedjson"):
+                    for shi in range(len(gshapes)):
+                        if omit == () and gshapes[shi][0] == "grid":
+                            continue        # explicit-units grids are enumerated above
+                        if omit == ("nodes",) and gshapes[shi][0] == "grid":
+                            continue
+                        for ni in range(len(nets)):
+                            seeds.append(("inherit", omit, sys_us, other, form, shi, ni))
+
     def expand(seed):
+        if seed[0] == "inherit":
+            _, omit, sys_us, other, form, shi, ni = seed
+            # levels that keep their own "units" use (other, other+1, ...); omitted levels resolve to their parent's
+            # species without units under a network WITH units: the documentation names the system, the code the
+            # network, as the parent - made unambiguous by giving that network the system's units
+            net_us = sys_us if ("network" in omit or "species" in omit) else other
+            sp_us = net_us if "species" in omit else (other + 1) % 3
+            space_us = sys_us if "space" in omit else (other + 2) % 3
+            node_us = space_us if "nodes" in omit else other
+            roles = (sp_us, net_us, space_us, node_us, sys_us)
+            netp = network_part(ENV_LISTS[2][(ni + shi) % 2], nets[ni][0], nets[ni][1], roles, form)
+            spp = space_part(gshapes[shi], roles, form, k=shi)
+            if "species" in omit:
+                for spc in netp["species"]:
+                    spc["us"] = net_us
+            if "nodes" in omit and spp["space"]["type"] == "graph":
+                for nd in spp["space"]["nodes"]:
+                    nd["us"] = space_us
+            return merge_case("dict", netp, spp, omit_units=list(omit))
         (a, b, c, e), form, shi, ni = seed
         roles = (a, b, c, 0, e)
         netp = network_part(ENV_LISTS[2][(ni + shi) % 2], nets[ni][0], nets[ni][1], roles, form)
         return merge_case("dict", netp, space_part(shapes[shi], roles, form, k=shi))
-    name = ("from_dict: systems built by rdsystem_from_dict from the documented dictionary form without state / chemostats, explicit "
+    name = ("from_dict: systems built by rdsystem_from_dict from the dictionary form without state / chemostats: (a) explicit "
             "units at every level: 3^4 unit-system roles (species, network, space, system) x value forms {bare, text, mixed} x "
-            "%d grids x 3 networks, all address forms" % len(shapes))
+            "%d grids x 3 networks; (b) grids AND graphs with the \"units\" key left out (documented default \"inherit\") at {no level "
+            "(graphs), space+nodes, every level below the system, nodes only, species only} x system units (3) x units of the "
+            "remaining levels (3) x value forms x 2 grids + 2 graphs x 3 networks; all address forms" % len(shapes))
     return name, seeds, expand
 
 
@@ -1871,9 +1989,23 @@ def sp_spaceedit(tier):
     return name, seeds, expand
 
 
-SPACE_BUILDERS = [sp_shapes, sp_layout, sp_units, sp_access, sp_set1, sp_set2, sp_regen, sp_dict, sp_history, sp_magnitude, sp_carrier, sp_edit, sp_prestate, sp_spaceedit]
+def sp_two(tier):
+    seeds = [(start, route, writer) for start in ("grid", "graph") for route in TWO_ROUTES for writer in ("derived", "original")]
+
+    def expand(seed):
+        base = hist_base(seed[0])
+        base.update({"sub": "two", "start": seed[0], "route": seed[1], "writer": seed[2]})
+        return base
+    name = ("two-systems: system B derived from system A through the library's API {RDSystem(state=A.state), B.state = A.state, "
+            "RDSystem(chemostats=A.chemostats), B.chemostats = A.chemostats, both, A.copy(), A.copy().copy(), second system on the "
+            "same network, on a copy of the network} x writer {B, A} x grid | graph: set_state + set_chemostat of EVERY entry of the "
+            "writer change exactly that entry of the writer and NO entry of the other system (raw arrays and getters)")
+    return name, seeds, expand
+
+
+SPACE_BUILDERS = [sp_shapes, sp_layout, sp_units, sp_access, sp_set1, sp_set2, sp_regen, sp_dict, sp_history, sp_magnitude, sp_carrier, sp_edit, sp_prestate, sp_spaceedit, sp_two]
 CHUNK = {"sp_shapes": 400, "sp_layout": 60, "sp_units": 60, "sp_access": 2, "sp_set1": 400, "sp_set2": 300, "sp_regen": 60,
-         "sp_override": 40, "sp_dict": 60, "sp_history": 12, "sp_magnitude": 150, "sp_carrier": 1, "sp_edit": 100, "sp_prestate": 40, "sp_spaceedit": 40}
+         "sp_override": 40, "sp_dict": 60, "sp_history": 12, "sp_magnitude": 150, "sp_carrier": 1, "sp_edit": 100, "sp_prestate": 40, "sp_spaceedit": 40, "sp_two": 3}
 
 _SPACES = None
 
@@ -1886,6 +2018,8 @@ def _nontrivial(case, stats):
         return len(case["ops"]) > 0
     if sub == "edit":
         return stats.get("edits_applied", 0) > 0
+    if sub == "two":
+        return True
     if sub == "prestate":
         return case["pre"] != "default"
     if sub == "spaceedit":
